@@ -1042,7 +1042,7 @@ def hook_part(seed, tier="quick", model=False, pid="C07"):
                          "rows": len(calls), "answers": sum(len(c["a"]) for c in calls), "hook_graph_entries": sum(len(c["h"]) for c in calls),
                          "call_validation": st, "model": mc,
                          "clauses": "ans.hook.<method@mode>: the logged answer is Hooked!AnsH(converter from the logged records, observed graph of the hook); "
-                                    "mon.C07.hook.declarative: Hooked!P_C07H with the logged answers as oracle; mon.C07.hook.<law>: answer-to-answer laws on raw logged values",
+                                    "mon.C07.hook.declarative: Hooked!P_C07H with the logged answers as oracle; mon.C08.hook: Props!P_C08 with the logged answers as oracle (reported by the C08 check, together with ans.hook.<method@mode>); mon.C07.hook.<law>: answer-to-answer laws on raw logged values",
                          "laws": "is_uri <=> compress / parse_uri give a value; is_curie <=> expand gives a value; parse = parse_uri | parse_curie | nothing; "
                                  "compress_or_standardize = CURIE of parse; compress_strict / expand_strict = the strict=True calls"}}
 
@@ -1050,16 +1050,17 @@ def hook_part(seed, tier="quick", model=False, pid="C07"):
 HOOK_SIZES = {"quick": {"MaxRecs": 1, "ProbeLen": 3, "IdLen": 1}, "thorough": {"MaxRecs": 2, "ProbeLen": 3, "IdLen": 2}}
 
 
-def hook_model(tier):
+def hook_model(tier, pid="C07"):
     """TLC on spec/mc/MC_Hook.tla: the declarative C07 for hooked converters (P_C07H) against the operational hooked operators, for every
     converter x hook graph x probe string of the bound; the identity hook gives Conv's operators back; witnesses must be reachable."""
     import checks_other as co
     from concurrent.futures import ThreadPoolExecutor
     consts = dict(HOOK_SIZES[tier], FoldMap="<-Fold")
     tiny = dict(HOOK_SIZES["quick"], FoldMap="<-Fold")
-    wit = ["Never_Rejected", "Never_Rewritten", "Never_UriAndCurie"]
+    wit = ["Never_Rejected", "Never_Rewritten", "Never_UriAndCurie"] if pid == "C07" else ["Never_Rejected"]
+    invs = ["Inv_C07H", "Inv_Base", "Inv_SynonymKey"] if pid == "C07" else ["Inv_C08H"]
     with ThreadPoolExecutor(4) as ex:
-        main = ex.submit(co.run_model, "mc/MC_Hook.tla", "MCSpec", consts, ["Inv_C07H", "Inv_C08H", "Inv_Base", "Inv_SynonymKey"], 3000 if tier == "thorough" else 900, dump=False)
+        main = ex.submit(co.run_model, "mc/MC_Hook.tla", "MCSpec", consts, invs, 3000 if tier == "thorough" else 900, dump=False)
         ws = [ex.submit(co.run_model, "mc/MC_Hook.tla", "MCSpec", tiny, [w], 600, dump=False) for w in wit]
         st, _, _ = main.result()
         wres = [f.result()[0] for f in ws]
@@ -1088,7 +1089,7 @@ def check(pid, tier, seed):
     apa_future = apa_pool.submit(apalache, pid, tier) if pid in APALACHE else None
     # C07: the bounded model of hooked converters (spec/mc/MC_Hook.tla) runs next to everything else
     hook_pool = ThreadPoolExecutor(1)
-    hook_future = hook_pool.submit(hook_model, tier) if pid == "C07" else None
+    hook_future = hook_pool.submit(hook_model, tier, pid) if pid in ("C07", "C08") else None
     for entry in world.PLAN[pid]:
         model, invs, extra = entry[:3]
         only = entry[3] if len(entry) > 3 else None
@@ -1179,8 +1180,8 @@ def check(pid, tier, seed):
                     path = replay_file(pid, tid, l, clause, [{"k": "repo-test-trace", "trace": tid, "event": rb["traces"][tid - 1]["events"][l - 1]["op"]}], 0, {})
                     lines.append(f"VIOLATION property={pid} replay={path}   # clause {key} in trace {tid} recorded from the repository's own tests")
     hook = None
-    if pid == "C07":
-        hook = hook_part(seed, tier)
+    if pid in ("C07", "C08"):
+        hook = hook_part(seed, tier, pid=pid)
         hook["coverage"]["model"] = hook_future.result()
         models.append(hook["coverage"]["model"])
         lines += hook["lines"]
